@@ -250,7 +250,7 @@ Lemma create_position_spec : forall s owner a0 a1 m0 m1 lo hi s' r, Inv s ->
   create_position s owner a0 a1 m0 m1 lo hi = Some (s', r) ->
   Inv s' /\ s_next_id s' = s_next_id s + 1 /\ cr_id r = s_next_id s /\
   s_pos s' = pos_set (s_pos s) (mkPos (s_next_id s) owner (cr_lower r) (cr_upper r) (cr_liq r) (s_time s)) /\
-  s_time s' = s_time s /\ 0 < cr_liq r.
+  s_time s' = s_time s /\ 0 < cr_liq r /\ p_spacing (s_pool s') = p_spacing (s_pool s).
 Proof.
   intros s owner a0 a1 m0 m1 lo hi s' r I H. unfold create_position in H.
   destruct (hi <=? lo); [discriminate|]. destruct ((a0 <? 0) || (a1 <? 0)); [discriminate|].
@@ -320,7 +320,7 @@ Qed.
 (* ---------- WithdrawPosition ---------- *)
 Lemma withdraw_position_spec : forall s owner id liq s' x0 x1, Inv s ->
   withdraw_position s owner id liq = Some (s', (x0, x1)) ->
-  Inv s' /\ s_next_id s' = s_next_id s /\ s_time s' = s_time s /\
+  Inv s' /\ s_next_id s' = s_next_id s /\ s_time s' = s_time s /\ p_spacing (s_pool s') = p_spacing (s_pool s) /\
   exists q, pos_get (s_pos s) id = Some q /\ ps_owner q = owner /\ 0 < liq <= ps_liq q /\
     s_pos s' = (if liq =? ps_liq q then pos_remove (s_pos s) id
                 else pos_set (s_pos s) (mkPos id owner (ps_lower q) (ps_upper q) (ps_liq q - liq) (ps_join q))).
@@ -384,7 +384,7 @@ Proof.
       rewrite Upool, Un, Utime, Lr. fold pu. split; [reflexivity|].
       split; [left; split; [unfold l'; rewrite ?E; apply pos_set_not_nil|reflexivity]|split; reflexivity]. }
   destruct Hfinal as [pf [Es' [Hpf _]]]. subst s'. simpl.
-  split; [|split; [reflexivity|split; [reflexivity|]]].
+  split; [|split; [reflexivity|split; [reflexivity|split; [destruct Hpf as [[_ E]|[_ E]]; subst pf; simpl; exact PU3|]]]].
   - constructor; simpl.
     + exact Sorted'.
     + destruct Hpf as [[_ E]|[_ E]]; subst pf; simpl; rewrite PU3; exact PosOk.
@@ -405,7 +405,7 @@ Qed.
 (* ---------- addToPosition ---------- *)
 Lemma add_to_position_spec : forall s owner id a0 a1 m0 m1 s' nid x0 x1, Inv s ->
   add_to_position s owner id a0 a1 m0 m1 = Some (s', (nid, x0, x1)) ->
-  Inv s' /\ s_next_id s' = s_next_id s + 1 /\ nid = s_next_id s /\ s_time s' = s_time s /\
+  Inv s' /\ s_next_id s' = s_next_id s + 1 /\ nid = s_next_id s /\ s_time s' = s_time s /\ p_spacing (s_pool s') = p_spacing (s_pool s) /\
   exists q lo' hi' liq', pos_get (s_pos s) id = Some q /\ ps_owner q = owner /\ 0 < liq' /\
     s_pos s' = pos_set (pos_remove (s_pos s) id) (mkPos (s_next_id s) owner lo' hi' liq' (s_time s)).
 Proof.
@@ -419,10 +419,10 @@ Proof.
   destruct (negb (pool_has_position (s_pool s1))); [discriminate|].
   destruct (create_position s1 owner (w0 + a0) (w1 + a1) _ _ (ps_lower q) (ps_upper q)) as [[s2 r]|] eqn:EC; [|discriminate].
   inversion H; subst; clear H.
-  destruct (withdraw_position_spec _ _ _ _ _ _ _ I EW) as [I1 [N1 [T1 [q' [EQ' [_ [_ P1]]]]]]].
+  destruct (withdraw_position_spec _ _ _ _ _ _ _ I EW) as [I1 [N1 [T1 [S1 [q' [EQ' [_ [_ P1]]]]]]]].
   rewrite EQ in EQ'. inversion EQ'; subst q'. rewrite Z.eqb_refl in P1.
-  destruct (create_position_spec _ _ _ _ _ _ _ _ _ _ I1 EC) as [I2 [N2 [Cid [P2 [T2 Lq]]]]].
-  split; [assumption|]. split; [lia|]. split; [congruence|]. split; [congruence|].
+  destruct (create_position_spec _ _ _ _ _ _ _ _ _ _ I1 EC) as [I2 [N2 [Cid [P2 [T2 [Lq S2]]]]]].
+  split; [assumption|]. split; [lia|]. split; [congruence|]. split; [congruence|]. split; [congruence|].
   exists q, (cr_lower r), (cr_upper r), (cr_liq r). splits; try assumption; try reflexivity.
   rewrite P2, P1, N1, T1. reflexivity.
 Qed.
